@@ -10,12 +10,15 @@ func IndexValue(base *Value, index *Value, span func() errors.Span) (*Value, *Vm
 	switch (*base).Kind() {
 	case ObjectValueKind, AnyObjectValueKind:
 		idx := (*index).(ValueString)
-		fields, i := (*base).Fields()
-		if i != nil {
-			return nil, i
+		// index the data fields: `Fields()` lists the builtin methods (and, for an any-object, nothing else)
+		var fields map[string]*Value
+		if obj, isObject := (*base).(ValueObject); isObject {
+			fields = obj.FieldsInternal
+		} else {
+			fields = (*base).(ValueAnyObject).FieldsInternal
 		}
 		val, found := fields[idx.Inner]
-		if !found {
+		if !found || val == nil {
 			return nil, NewVMFatalException(
 				fmt.Sprintf("Value of type '%s' has no field named '%s'", (*base).Kind(), idx.Inner),
 				Vm_IndexOutOfBoundsErrorKind,
